@@ -40,6 +40,9 @@ def layouts(ty, has_int_repr):
     out = []
     out.append(("implicit", [("A", UNIT, None), ("B", UNIT, None), ("C", UNIT, None)]))
     out.append(("first", [("A", UNIT, "5"), ("B", UNIT, None), ("C", UNIT, None)]))
+    # field-less variants whose names differ only in letter case (seed C12-discriminant-const-names-uppercased)
+    out.append(("case_twins", [("Kb", UNIT, "1"), ("KB", UNIT, None), ("Id", ETUP, None), ("ID", UNIT, "9"), ("id", EBRACE, None)] if has_int_repr
+                else [("Kb", UNIT, None), ("KB", UNIT, None), ("Id", ETUP, None), ("ID", UNIT, None)]))
     # variants named by raw identifiers (fix fa7e5bd: the derive panicked on them)
     out.append(("raw_names", [("r#type", UNIT, "3"), ("r#match", UNIT, None), ("Plain", ETUP, None), ("r#fn", EBRACE, "9")] if has_int_repr
                 else [("r#type", UNIT, None), ("r#match", UNIT, None), ("Plain", ETUP, None)]))
